@@ -243,7 +243,7 @@ def gen_set_cases(chk):
     out = []
     paths = [".".join(t) for n in (1, 2, 3) for t in itertools.product(segs, repeat=n)]
     objs = SMALL_OBJS if chk.tier == "thorough" else SMALL_OBJS[:11]
-    step = 1 if chk.tier == "thorough" else 2
+    step = 1
     i = 0
     for o in objs:
         for p in paths:
